@@ -2,10 +2,12 @@
    Only statements; proofs by reference.  Model: model/Ingest.v (one insert worker), model/PushHandler.v (all
    workers, promise store, HTTP push handlers with retry); monitors: model/IngestSpec.v. *)
 From Coq Require Import List NArith ZArith Bool.
+From Qryn Require Import model.IngestRobust model.IngestPipe.   (* C05's parser pipeline (for the bridge at the end); first: C01's names win *)
 From Qryn Require Import model.Ingest model.PushHandler model.IngestSpec model.IngestSched proofs.IngestBase proofs.IngestAck
   proofs.IngestSpecProofs proofs.IngestHandler proofs.IngestDrain proofs.IngestLive proofs.IngestLiveAll proofs.IngestRows
   proofs.IngestWait proofs.IngestStop model.IngestFair proofs.IngestFairProofs model.IngestRegions proofs.IngestRegionsProofs model.PushConfirm proofs.IngestConfirm
-  model.IngestConfirmSched proofs.IngestConfirmInv proofs.IngestConfirmLive model.PushRead proofs.PushReadProofs.
+  model.IngestConfirmSched proofs.IngestConfirmInv proofs.IngestConfirmLive model.PushRead proofs.PushReadProofs
+  model.IngestConfirmFair proofs.IngestConfirmFairProofs model.IngestBridge proofs.IngestBridgeProofs.
 From Qryn Require model.SeriesIndex proofs.PushReadIndex.
 Import ListNotations.
 
@@ -409,3 +411,31 @@ Theorem left_out_rows_are_the_cached_ones : forall C ss,
   snd (SeriesIndex.parse C ss) = filter (fun x => negb (SeriesIndex.mem_row x C)) (snd (SeriesIndex.parse [] ss)).
 Proof. exact PushReadIndex.parse_is_strip. Qed.
 Print Assumptions left_out_rows_are_the_cached_ones.
+
+(* The wrapped system under the fault adversary of model/IngestFair.v (refused connections, failed pings; budget b): from every
+   reachable state (no Stop, routed, no panic in ProcessRequest / ConfirmSeries), for every INSERT policy, adversary and budget,
+   the schedule run_sched_cf of at most mu_c + 2 b steps without new work -- faults taken + budget left = b -- ends with
+   every worker empty and every push answered; the confirmations match the answers; one answer per push in the whole log. *)
+Theorem every_push_is_answered_and_confirmed_accordingly_while_the_database_answers :
+  forall cfg n tr c ces (db : gstate -> nat -> bool) adv b,
+  crun (cinit cfg n) tr = Some (c, ces) ->
+  forallb (act_live (sig_of_cfg cfg)) (base_trace tr) = true -> forallb (act_q confirm_safe) (base_trace tr) = true ->
+  exists tr' c' ces' b', run_sched_cf db adv (mucf c b) c b = (c', b', tr', ces') /\ crun c tr' = Some (c', ces') /\
+    forallb cnonew tr' = true /\ length tr' <= mucf c b /\ length (filter cis_fault tr') + b' = b /\
+    all_done (base c') = true /\
+    (forall h hd, nth_error (hs (base c')) h = Some hd ->
+       (h_answer hd = Some true -> mem_nat h (confirmed c') = true) /\ (h_answer hd = Some false -> mem_nat h (confirmed c') = false)) /\
+    one_answer_b (base_events (ces ++ ces')) = true.
+Proof. exact wrapped_system_completes_with_faults. Qed.
+Print Assumptions every_push_is_answered_and_confirmed_accordingly_while_the_database_answers.
+
+(* ack_sound END TO END (props/C02.v, model/IngestBridge.v): in every interleaving whose pushes are what the parser goroutine of
+   some route sends for some stream of decoder events (the regenerated append programs of onSpan / onEntries / onProfile at cell
+   level; the decoders keeping onEntries' equal-length contract) -- no hypothesis on the requests -- a promise is completed with
+   success, and a push answers success, only when every cell of the request(s) is in a block whose Do returned without error. *)
+Theorem parsed_pushes_are_acknowledged_soundly : forall cfg n tr g es,
+  Forall (act_parsed on_span_cols_model spans_fields_model attrs_fields_model on_entries_cols_model spl_fields_model tsd_fields_model) tr ->
+  grun (ginit cfg n) tr = Some (g, es) ->
+  run_mon (amon_step true) (amon_init (length cfg)) es <> None.
+Proof. exact (parsed_pushes_ack _ _ _ _ _ _ bridge_model_ok). Qed.
+Print Assumptions parsed_pushes_are_acknowledged_soundly.
